@@ -168,4 +168,11 @@ theorem c12_unchecked_two_witness :
     (nameVar Ord.id ⟨s%"", s%"", [], [], []⟩ ⟨[⟨s%"s2", .basic s%"string", []⟩, ⟨s%"s", .basic s%"string", []⟩], []⟩ [] [] (.basic s%"string") []).toOption.map
       (fun sc => names sc.vars) = some [s%"s2", s%"s1", s%"s2"] := by decide +kernel
 
+/-- F-28: the name derived for an unnamed parameter is never compared with the type parameters of
+    the interface.  For `type I[v any] interface { M(v) }` the scope hands out `v` for the parameter
+    whose type *is* the type parameter `v` (`func (mock *IMock[v]) M(v v)` does not compile). -/
+theorem c12_typeparam_capture_witness :
+    (nameVar Ord.id ⟨s%"", s%"", [], [], []⟩ ⟨[], []⟩ [] [] (.tparam s%"v") []).toOption.map
+      (fun sc => names sc.vars) = some [s%"v"] := by decide +kernel
+
 end Moq
